@@ -11,6 +11,8 @@ when it creates the namespace, bit = order of creation):
               an edge carrying it; the (un)rooted topology is the one the tree had before.
   encode-opts the same with all 16 combinations of the four boolean options, on shapes with
               unifurcations inserted and with edge lengths.
+  reencode    encode, read the two edge maps, move a leaf with the Node API, encode again: all of
+              the above must describe the current tree (no stale bipartition or map).
   iff         over all trees on one leaf set / namespace / rooting state: equal split-mask
               sets <=> equal canonical (un)rooted form (computed by re-hanging the pointer
               graph, not from splits).  Enumerating every ordered shape with every leaf
@@ -211,6 +213,77 @@ def _w_encode(item):
     fails = eval_encode(item)
     sp = item["spec"]
     return (spec_key(sp) + " opts=" + _opts_key(item["opts"]), len(sp["leaves"]), fails)
+
+
+# ============================================================================ re-encode after an edit
+def eval_reencode(item):
+    """encode; read both edge maps; move one leaf to another internal node with the Node API;
+    encode again: everything observable must describe the *current* tree"""
+    spec = item["spec"]
+    rooted = bool(spec["rooted"])
+    tree = build(spec)
+    try:
+        tree.encode_bipartitions()
+        tree.split_bitmask_edge_map
+        tree.bipartition_edge_map
+    except Exception as e:
+        return [("encode.raises", _exc(e))]
+    nodes = S.pre(tree._seed_node)
+    x = [n for n in nodes if n.taxon is not None and n.taxon.label == item["leaf"]][0]
+    y = nodes[item["target"]]
+    x._parent_node.remove_child(x)
+    y.add_child(x)
+    want_canon = SP.canon(tree, rooted)
+    try:
+        with time_limit(20):
+            ret = tree.encode_bipartitions()
+    except Timeout:
+        return [("encode.hangs", "no result after 20 s")]
+    except Exception as e:
+        return [("encode.raises", _exc(e))]
+    fails = check_encoded_tree(tree, rooted, DEFAULT_OPTS, ret, want_canon)
+    if not fails:
+        fails += check_edge_map(tree, rooted)
+        try:
+            bem = tree.bipartition_edge_map
+            edges = [n._edge for n in S.pre(tree._seed_node)]
+            for b, e in bem.items():
+                if not any(e is x_ for x_ in edges) or e._bipartition.split_bitmask != b.split_bitmask:
+                    fails.append(("edge_map.values", "bipartition_edge_map maps split %s to an edge that is not an edge of the "
+                                                     "current tree inducing it" % bin(b.split_bitmask)))
+                    break
+        except Exception as e:
+            fails.append(("edge_map.raises", _exc(e)))
+    return [(m.replace("encode.", "reencode.").replace("edge_map.", "reencode.edge_map."), d) for m, d in fails]
+
+
+def _reencode_items(tier):
+    nmax = 5 if tier == "quick" else 6
+    items = []
+    for n in range(3, nmax + 1):
+        for shape in shapes_exact(n):
+            for vi, (nsd, usable) in enumerate(namespace_variants(n)):
+                if vi not in (0, 3, 6):
+                    continue
+                for rooted in (True, False):
+                    spec = {"shape": lst(shape), "leaves": list(usable), "rooted": rooted, "lens": 1.0, "ns": nsd}
+                    probe = build(spec)
+                    probe.encode_bipartitions()      # the edit happens on the encoded (possibly basally collapsed) tree
+                    nodes = S.pre(probe._seed_node)
+                    for x in nodes:
+                        if x._child_nodes or x._parent_node is None or len(x._parent_node._child_nodes) < 2:
+                            continue
+                        for j, y in enumerate(nodes):
+                            if not y._child_nodes or y is x._parent_node:
+                                continue
+                            # the old parent must keep a taxon below it
+                            items.append({"spec": spec, "leaf": x.taxon.label, "target": j})
+    return items
+
+
+def _w_reencode(item):
+    fails = eval_reencode(item)
+    return (spec_key(item["spec"]) + " move %s -> node#%d" % (item["leaf"], item["target"]), len(item["spec"]["leaves"]), fails)
 
 
 # ============================================================================ iff
@@ -510,6 +583,7 @@ def _w_tcompat(item):
 # ============================================================================ driver
 def t2(ctx):
     quick = ctx.tier == "quick"
+    rep = Reporter(ctx)
 
     # ---- encode
     sc = "encode@Shapes x Lab x rooting"
@@ -520,7 +594,7 @@ def t2(ctx):
     for item, (key, n, fails) in zip(items, pmap(_w_encode, items, chunksize=64)):
         ctx.case(sc, key, nontrivial=n >= 3)
         for mon, detail in fails:
-            ctx.fail(mon, {"key": key, "kind": "encode", "item": item}, detail=detail)
+            rep.fail(mon, {"key": key, "kind": "encode", "item": item}, detail=detail)
 
     sc = "encode-opts@unifurcations x options"
     ctx.scope(sc, rule="shapes with <= %d leaves with 0, 1 (every position incl. the seed) or 2 unifurcations x 7 namespace variants x "
@@ -530,7 +604,18 @@ def t2(ctx):
     for item, (key, n, fails) in zip(items, pmap(_w_encode, items, chunksize=64)):
         ctx.case(sc, key, nontrivial=n >= 3)
         for mon, detail in fails:
-            ctx.fail(mon, {"key": key, "kind": "encode", "item": item}, detail=detail)
+            rep.fail(mon, {"key": key, "kind": "encode", "item": item}, detail=detail)
+
+    sc = "reencode@leaf moves"
+    ctx.scope(sc, rule="shapes with 3..%d leaves x 3 namespace variants x {rooted, unrooted}: encode, read split_bitmask_edge_map and "
+                       "bipartition_edge_map, move one leaf (every leaf) to another internal node (every one) through "
+                       "remove_child/add_child, encode again, check all encode clauses and both maps on the current tree; "
+                       "non-trivial = >= 4 leaves" % (5 if quick else 6), exhaustive=True)
+    items = _reencode_items(ctx.tier)
+    for item, (key, n, fails) in zip(items, pmap(_w_reencode, items, chunksize=32)):
+        ctx.case(sc, key, nontrivial=n >= 4)
+        for mon, detail in fails:
+            rep.fail(mon, {"key": key, "kind": "reencode", "item": item}, detail=detail)
 
     # ---- iff
     sc = "iff@all trees on one leaf set"
@@ -549,19 +634,19 @@ def t2(ctx):
         for spec, (c, masks, err) in zip(specs, res):
             ctx.case(sc, (gname, c), nontrivial=len(spec["leaves"]) >= 3, sample=spec_key(spec))
             if masks is None:
-                ctx.fail("iff.raises", {"key": spec_key(spec), "kind": "iff", "a": spec, "b": spec}, detail=err)
+                rep.fail("iff.raises", {"key": spec_key(spec), "kind": "iff", "a": spec, "b": spec}, detail=err)
                 continue
             mk = tuple(masks)
             first = by_canon.setdefault(c, (mk, spec))
             if first[0] != mk:
                 a, b = first[1], spec
-                ctx.fail("iff.same-topology-different-masks",
+                rep.fail("iff.same-topology-different-masks",
                          {"key": spec_key(a) + " | " + spec_newick(b), "kind": "iff", "a": a, "b": b},
                          detail="same topology %s, split-mask sets %s vs %s" % (c, list(first[0]), masks))
             first = by_masks.setdefault(mk, (c, spec))
             if first[0] != c:
                 a, b = first[1], spec
-                ctx.fail("iff.same-masks-different-topology",
+                rep.fail("iff.same-masks-different-topology",
                          {"key": spec_key(a) + " | " + spec_newick(b), "kind": "iff", "a": a, "b": b},
                          detail="split-mask set %s for topologies %s and %s" % (masks, first[0], c))
 
@@ -580,7 +665,7 @@ def t2(ctx):
             ctx.case(sc, (key, i), nontrivial=n >= 4, sample=key)
         for o, f in bad:
             for mon, detail in f:
-                ctx.fail(mon, {"key": key + " order=" + ",".join(map(str, o)), "kind": "rebuild", "item": {"spec": item["spec"]}, "order": o},
+                rep.fail(mon, {"key": key + " order=" + ",".join(map(str, o)), "kind": "rebuild", "item": {"spec": item["spec"]}, "order": o},
                          detail=detail)
 
     # ---- predicates
@@ -604,7 +689,7 @@ def t2(ctx):
             ctx.case(sc, (key, i), nontrivial=n >= 4, sample=key)
         for mon, w, detail in fails:
             wk = key + " " + " ".join("%s=%s" % (k, bin(v)) for k, v in sorted(w.items()))
-            ctx.fail(mon, {"key": wk, "kind": "pred", "item": item, "masks": w}, detail=detail)
+            rep.fail(mon, {"key": wk, "kind": "pred", "item": item, "masks": w}, detail=detail)
 
     sc = "tree_compat@trees x subsets"
     ctx.scope(sc, rule="shapes with <= %d leaves (+ unifurcation variants for <= 4) x 4 namespace variants x {rooted, unrooted} x "
@@ -628,7 +713,10 @@ def t2(ctx):
         for i in range(n_eval):
             ctx.case(sc, (key, i), nontrivial=n >= 4, sample=key)
         for mon, w, detail in fails:
-            ctx.fail(mon, {"key": key + " m=" + bin(w["m"]), "kind": "tcompat", "item": item, "m": w["m"]}, detail=detail)
+            rep.fail(mon, {"key": key + " m=" + bin(w["m"]), "kind": "tcompat", "item": item, "m": w["m"]}, detail=detail)
+
+
+    rep.close()
 
 
 def replay(ctx, rec):
@@ -637,6 +725,11 @@ def replay(ctx, rec):
     kind = w["kind"]
     if kind == "encode":
         fails = eval_encode(w["item"])
+        for f in fails:
+            print("  ", f)
+        return not fails
+    if kind == "reencode":
+        fails = eval_reencode(w["item"])
         for f in fails:
             print("  ", f)
         return not fails
